@@ -317,6 +317,23 @@ func (ctx *c10Ctx) checkCut(c, mode int, opts *stack.Opts) (kfcut bool, err erro
 			if refG := ref.Goroutines; i >= len(refG) || !reflect.DeepEqual(got[i], refG[i]) {
 				return kfcut, fmt.Errorf("goroutine %d (id %d) lay entirely before the cut but differs from the uncut parse (path guessing=%v)", i, ctx.uncut.Goroutines[i].ID, opts.GuessPaths)
 			}
+		} else if complete && !opts.GuessPaths && i < len(ctx.uncut.Goroutines) {
+			// The goroutine whose text was delivered completely and whose following line is
+			// the one that was cut: that line may add something to it, but every frame that
+			// was delivered - of its stack and of its creation stack - must be there.
+			u := ctx.uncut.Goroutines[i]
+			if opts.NameArguments {
+				u = cloneGoroutine(u)
+				eraseNames([]*stack.Goroutine{u})
+			}
+			for _, pr := range []struct {
+				what      string
+				got, want []stack.Call
+			}{{"stack", got[i].Stack.Calls, u.Stack.Calls}, {"creation stack", got[i].CreatedBy.Calls, u.CreatedBy.Calls}} {
+				if len(pr.got) < len(pr.want) || !reflect.DeepEqual(pr.got[:len(pr.want)], pr.want) {
+					return kfcut, fmt.Errorf("goroutine %d (id %d) was delivered completely before the cut line, yet its %s lost frames that were delivered: %d frames, the uncut parse has %d", i, u.ID, pr.what, len(pr.got), len(pr.want))
+				}
+			}
 		} else if got[i].ID != ctx.uncut.Goroutines[i].ID && i < j {
 			return kfcut, fmt.Errorf("goroutine %d has id %d, uncut parse has %d", i, got[i].ID, ctx.uncut.Goroutines[i].ID)
 		}
